@@ -22,6 +22,7 @@ import (
 	"encoding/binary"
 	"fmt"
 	"os"
+	"os/exec"
 	"path/filepath"
 	"sort"
 	"strconv"
@@ -113,21 +114,32 @@ type c13Env struct {
 const c13FakeNM = "#!/bin/sh\n# fake nm for the C13 harness: prints the prepared table of the file named last\nfor a in \"$@\"; do f=\"$a\"; done\nexec cat \"$f.nm\"\n"
 
 func newC13Env(c *Ctx) *c13Env {
-	base := "/dev/shm"
-	if st, err := os.Stat(base); err != nil || !st.IsDir() {
-		base = ""
-	}
-	dir, err := os.MkdirTemp(base, "pvc13-")
-	if err != nil {
-		dir, err = os.MkdirTemp("", "pvc13-")
-		if err != nil {
-			panic("C13: no temp dir: " + err.Error())
+	var dir, tools string
+	for _, base := range []string{"/dev/shm", ""} { // memory-backed if possible; must allow exec
+		if base != "" {
+			if st, err := os.Stat(base); err != nil || !st.IsDir() {
+				continue
+			}
 		}
+		d, err := os.MkdirTemp(base, "pvc13-")
+		if err != nil {
+			continue
+		}
+		tools = filepath.Join(d, "tools")
+		os.MkdirAll(tools, 0o755)
+		probe := filepath.Join(d, "probe")
+		os.WriteFile(probe+".nm", []byte("ok\n"), 0o644)
+		if err := os.WriteFile(filepath.Join(tools, "nm"), []byte(c13FakeNM), 0o755); err == nil {
+			if out, err := exec.Command(filepath.Join(tools, "nm"), "-x", probe).Output(); err == nil && string(out) == "ok\n" {
+				os.Remove(probe + ".nm")
+				dir = d
+				break
+			}
+		}
+		os.RemoveAll(d)
 	}
-	tools := filepath.Join(dir, "tools")
-	os.MkdirAll(tools, 0o755)
-	if err := os.WriteFile(filepath.Join(tools, "nm"), []byte(c13FakeNM), 0o755); err != nil {
-		panic(err)
+	if dir == "" {
+		panic("C13: no temp dir in which the fake nm tool can be executed")
 	}
 	bu := &binutils.Binutils{}
 	bu.SetTools("nm:" + tools)
@@ -398,7 +410,7 @@ func genSegs(r *Rng, etype uint16, A uint64) ([]c13Seg, string) {
 }
 
 var c13Biases = []uint64{0, 0x1000, 0x10000, 0x200000, 0x400000, 0x555555554000, 0x7f1234560000, 0x7ffff7dd0000, 0x100000000, 0xffff0000,
-	0x5555_5540_0000, 0x3fff_ffe0_0000, 0x7fff_ffff_f000}
+	0x5555_5540_0000, 0x3fff_ffe0_0000, 0x7fff_ffff_f000, 1 << 47, 0xffff_8000_0000 << 8, 1 << 56, 0x4000_0000_0000_0000, 0x7fff_ffff_0000_0000, 0x7fff_ffff_ffe0_0000}
 
 func genBias(r *Rng, etype uint16, P uint64, top uint64) uint64 {
 	// top: largest link-time address that must stay below 2^63 after adding the bias
@@ -524,6 +536,51 @@ func genLayout(r *Rng, P uint64) *c13Case {
 			continue
 		}
 		return cs
+	}
+}
+
+// hitShape records which of the layout features named by the property a main-stream case has.
+func (cs *c13Case) hitShape(c *Ctx) {
+	s := cs.Segs[cs.Seg]
+	c.Res.Hit(fmt.Sprintf("shape:align=%#x", uint64(s.Align)))
+	if s.Flags&uint32(elf.PF_X) != 0 {
+		c.Res.Hit("shape:owner=text")
+	} else {
+		c.Res.Hit("shape:owner=data")
+	}
+	lo, hi := pageStart(uint64(s.Vaddr), uint64(cs.Page)), pageAlign(uint64(s.Vaddr+s.Filesz), uint64(cs.Page))
+	if uint64(cs.V0) == lo && uint64(cs.V1) == hi {
+		c.Res.Hit("shape:mapping=whole-image")
+	} else {
+		c.Res.Hit("shape:mapping=split")
+	}
+	if s.Memsz > s.Filesz {
+		c.Res.Hit("shape:owner-has-bss")
+	}
+	if uint64(s.Vaddr)%uint64(cs.Page) != 0 {
+		c.Res.Hit("shape:owner-vaddr-not-page-aligned")
+	}
+	if uint64(s.Vaddr-s.Off) >= 1<<32 {
+		c.Res.Hit("shape:vaddr-off-distance>=2^32")
+	}
+	if cs.Segs[0].Vaddr != 0 {
+		c.Res.Hit("shape:first-vaddr-nonzero")
+	}
+	for i, o := range cs.Segs {
+		if i != cs.Seg && o.Filesz > 0 && uint64(o.Off)/4096 <= uint64(s.Off+s.Filesz-1)/4096 && uint64(s.Off)/4096 <= uint64(o.Off+o.Filesz-1)/4096 {
+			c.Res.Hit("shape:shares-file-page-with-other-segment")
+			break
+		}
+	}
+	switch b := uint64(cs.Bias); {
+	case b == 0:
+		c.Res.Hit("shape:bias=0")
+	case b < 1<<32:
+		c.Res.Hit("shape:bias<2^32")
+	case b < 1<<47:
+		c.Res.Hit("shape:bias<2^47")
+	default:
+		c.Res.Hit("shape:bias>=2^47")
 	}
 }
 
@@ -709,6 +766,7 @@ func genGetBase(r *Rng) *c13Case {
 		if r.Chance(30) {
 			s.Vaddr = hx(start - offset)
 		}
+		s.Off = s.Off&^0xfff | s.Vaddr&0xfff // ELF: p_offset ≡ p_vaddr (mod page)
 		cs.Segs = []c13Seg{s}
 	}
 	if r.Chance(50) {
@@ -1238,6 +1296,7 @@ func runC13(c *Ctx) {
 		cs.Stream = "main"
 		c.Res.Count(cs.canon(), nontrivLayout(cs))
 		c.Res.Hit(fmt.Sprintf("main:segs=%d,etype=%d", len(cs.Segs), cs.EType))
+		cs.hitShape(c)
 		if i < 2 {
 			c.Res.Sample(cs)
 		}
